@@ -131,6 +131,40 @@ def parseKind : String → Option HookKind
   | "seg" => some .seg
   | _ => none
 
+/-- byte-level ReplaceAll (used to bring `{H}` and `{D}/helper` to one canonical spelling) -/
+partial def replaceBytes (old new : Bytes) (s : Bytes) : Bytes :=
+  if old.isEmpty then s else
+  match s with
+  | [] => []
+  | c :: r => if old.isPrefixOf s then new ++ replaceBytes old new (s.drop old.length) else c :: replaceBytes old new r
+
+/-- `{H}` (the helper executable) is `{D}/helper` -/
+def canonH (b : Bytes) : Bytes := replaceBytes (strBytes "{H}") (strBytes "{D}/helper") b
+
+/-- spec of a `prg` op: the program word is expanded like every other word; if its verbatim substitution
+names the existing helper the hook must run, with argv[0] and all arguments verbatim -/
+def specProg (split : Option (List Bytes)) (env osenv : Env) (code : Nat) (impl : String) : String :=
+  match split with
+  | none | some [] => "ok"
+  | some ws =>
+    let argvM := ws.map (fun w => canonH (expandEnv env osenv w))
+    if env.any (fun kv => hasNul kv.2 || hasNul kv.1) || argvM.any hasNul then "ok"
+    else if argvM.head? != some (strBytes "{D}/helper") then "ok"   -- names nothing that exists: model predicts starterr
+    else match parseImplRan impl with
+    | none => "FAIL the hook did not start although the verbatim substitution of its program word names an existing executable: " ++ impl
+    | some r =>
+      if r.argv.length != ws.length then
+        s!"FAIL values changed how the command is split: {ws.length} words, {r.argv.length} arguments (incl. argv[0])"
+      else if r.argv.head? != argvM.head? then "FAIL argv[0] is not the verbatim substitution of the program word"
+      else if r.argv != argvM then "FAIL an argument is not the verbatim substitution of its word"
+      else match firstSome env (fun kv =>
+            match r.seen.find? (·.1 == kv.1) with
+            | some (_, some v) => if v == canonH kv.2 then none else some s!"environment variable {bytesStr kv.1} not verbatim"
+            | _ => some s!"environment variable {bytesStr kv.1} missing in the command's environment") with
+        | some e => "FAIL " ++ e
+        | none =>
+          if code == 0 || r.report == s!"code:{code}" then "ok" else s!"FAIL exit status {code} reported as {r.report}"
+
 def step (_ : Unit) (op impl : String) : Unit × DrvOut :=
   let rc := true
   match words op with
@@ -154,6 +188,19 @@ def step (_ : Unit) (op impl : String) : Unit × DrvOut :=
       let split' := split.map (fun ws => ([] : Bytes) :: ws)
       let m := runCmd rc split' true env osenv code
       ((), { model := fmtOutcome env osenv m, spec := specRun split' env osenv code impl })
+    | _, _, _, _ => ((), { model := "bad-op" })
+  | ["prg", _prog, _rest, sp, e, o, code] =>
+    match parseSplit sp, parseEnv e, parseEnv o, code.toNat? with
+    | some split, some env, some osenv, some code =>
+      let argv0 := (split.bind List.head?).map (fun w => canonH (expandEnv env osenv w))
+      let progOK := argv0 == some (strBytes "{D}/helper")
+      let model := match runCmd rc split progOK env osenv code with
+        | .ran args rep =>
+          let seen := ",".intercalate ((envKeys env osenv).map fun k =>
+            Hex.encode k ++ ":" ++ (match childGet env osenv k with | some v => Hex.encode (canonH v) | none => "unset"))
+          s!"ran argv={fmtWords ((argv0.getD []) :: args.map canonH)} env={if (envKeys env osenv).isEmpty then "-" else seen} report={fmtReport rep}"
+        | o' => fmtOutcome env osenv o'
+      ((), { model, spec := specProg split env osenv code impl })
     | _, _, _, _ => ((), { model := "bad-op" })
   | ["rst", _tmpl, sp, e, o, code, n] =>
     match parseSplit sp, parseEnv e, parseEnv o, code.toNat?, n.toNat? with
